@@ -33,29 +33,41 @@ def run(check):
     check.run_rule('C02.R4', lambda c: rule_embed_flags(c, model(), 'C02.R4'))
 
     def r5(c):
-        f = rules_fold.rule_fold(c, 'C02.R5', '_signatures:embed', ('_embed',), W)
-        call = getattr(f, 'step_call', None)
-        if call is None:
-            return
-        from ..rules_embed import _bind
-        from ..interp import show
-        bound = _bind(model().fi, call.args, call.kws)
-        dname = model().params[4]
-        st = '%s %s' % (f.fi.loc(call.node), f.fi.key)
-        key = '_signatures:embed|depth'
-        d = bound.get(dname) if bound else None
-        loop = f.loop
-        it = loop.target
-        if d is None:
-            c.violation('C02.R5', st, 'embed() passes no depth to _embed: every inner signature gets depth 1', key=key,
-                        witness="embed(a, b, c).sources['+depths'][c_func] must be 2")
-        elif d == ('IDX', loop.ctx) and it[0] == 'C' and it[1] == 'enumerate':
-            start = it[2][1] if len(it[2]) > 1 else dict(it[3]).get('start', ('K', 0))
-            if start == ('K', 1):
-                c.holds('C02.R5', st, 'depth argument is the 1-based index of the embedded signature', key=key)
-            else:
-                c.violation('C02.R5', st, 'depth index starts at %s instead of 1' % show(start), key=key,
-                            witness="embed(a, b).sources['+depths'][b_func] must be 1")
-        else:
-            c.inconclusive('C02.R5', st, 'depth argument not understood: %s' % show(d), key=key)
+        depth_rule(c, model(), 'C02.R5', fold_rule='C02.R5')
     check.run_rule('C02.R5', r5)
+
+
+def depth_rule(c, model, rule, fold_rule=None):
+    """embed() folds over all inputs and passes the 1-based index as depth"""
+    from ..rules_embed import _bind
+    from ..interp import show
+    from ..report import Check
+    if fold_rule is not None:
+        f = rules_fold.rule_fold(c, fold_rule, '_signatures:embed', ('_embed',), W)
+    else:
+        # evaluate the fold silently to obtain the step call
+        scratch = Check(c.prop_id, c.repo, tier=c.tier)
+        f = rules_fold.rule_fold(scratch, rule, '_signatures:embed', ('_embed',), W)
+    call = getattr(f, 'step_call', None)
+    if call is None:
+        c.inconclusive(rule, '-', 'fold step of embed() not found', key='_signatures:embed|depth')
+        return
+    bound = _bind(model.fi, call.args, call.kws)
+    dname = model.params[4]
+    st = '%s %s' % (f.fi.loc(call.node), f.fi.key)
+    key = '_signatures:embed|depth'
+    d = bound.get(dname) if bound else None
+    loop = f.loop
+    it = loop.target
+    if d is None:
+        c.violation(rule, st, 'embed() passes no depth to _embed: every inner signature gets depth 1', key=key,
+                    witness="embed(a, b, c).sources['+depths'][c_func] must be 2")
+    elif d == ('IDX', loop.ctx) and it[0] == 'C' and it[1] == 'enumerate':
+        start = it[2][1] if len(it[2]) > 1 else dict(it[3]).get('start', ('K', 0))
+        if start == ('K', 1):
+            c.holds(rule, st, 'depth argument is the 1-based index of the embedded signature', key=key)
+        else:
+            c.violation(rule, st, 'depth index starts at %s instead of 1' % show(start), key=key,
+                        witness="embed(a, b).sources['+depths'][b_func] must be 1")
+    else:
+        c.inconclusive(rule, st, 'depth argument not understood: %s' % show(d), key=key)
